@@ -233,7 +233,6 @@ Definition C14_statement : Prop := forall x, C14_domain x = true -> C14_at x.
 
 (* ------------------------------------------------------------------ finding classes *)
 Inductive c14_class : Type :=
-| K14_output_docstring        (* ast_parse re-emits the module docstring of the OUTPUT file: it is rewritten *)
 | K14_eval_mode               (* --input-eval: the built AnnAssign is named like the addressed argument, so the raw str NoneStr is
                                  stored in that argument's front-indexed default slot (AttributeError in to_code) or, on a class
                                  attribute / assignment, the value is dropped *)
@@ -250,7 +249,6 @@ Inductive c14_class : Type :=
 
 Definition class_name_C14 (k : c14_class) : str :=
   match k with
-  | K14_output_docstring => L "output-module-docstring-rewritten"
   | K14_eval_mode => L "eval-mode-replacement"
   | K14_input_lookup => L "input-address-misresolved"
   | K14_output_location => L "output-address-not-hit"
@@ -263,12 +261,9 @@ Definition class_name_C14 (k : c14_class) : str :=
 
 Definition is_parg (n : pnode) : bool := match n with PArg _ => true | _ => false end.
 
-(* the trees the call works on: after ast_parse's docstring re-emission *)
-Definition remitted (m : module) : module := match ast_parse_remit m with Ok m' => m' | Err _ => m end.
-
 Definition pair_class (x : c14_input) (ip op : str) : option c14_class :=
-  let im := remitted (ci_in x) in
-  let om := remitted (ci_out x) in
+  let im := ci_in x in
+  let om := ci_out x in
   let qi := dotted ip in
   let qo := dotted op in
   match (if ci_eval x then None else finding_class_C15 im qi) with
@@ -305,16 +300,12 @@ Fixpoint first_pair_class (x : c14_input) (ips ops : list str) : option c14_clas
   end.
 
 Definition finding_class_C14 (x : c14_input) : option c14_class :=
-  match docstring_of (ci_out x) with
-  | Some _ => Some K14_output_docstring
-  | None =>
-    if ci_eval x then Some K14_eval_mode
-    else
-      match first_pair_class x (ci_ips x) (ci_ops x) with
-      | Some k => Some k
-      | None => if Nat.ltb 1 (List.length (ci_ips x)) then Some K14_multi_pair else None
-      end
-  end.
+  if ci_eval x then Some K14_eval_mode
+  else
+    match first_pair_class x (ci_ips x) (ci_ops x) with
+    | Some k => Some k
+    | None => if Nat.ltb 1 (List.length (ci_ips x)) then Some K14_multi_pair else None
+    end.
 
 Definition guard_C14 (x : c14_input) : bool :=
   C14_domain x && match finding_class_C14 x with None => true | Some _ => false end.
@@ -361,8 +352,8 @@ Definition C14_frame (x : c14_input) : Prop :=
 Definition C14_holds (x : c14_input) : Prop :=
   match ci_ips x, ci_ops x with
   | [ip], [op] =>
-    let im := remitted (ci_in x) in
-    let om := remitted (ci_out x) in
+    let im := ci_in x in
+    let om := ci_out x in
     ((resolve_at [0] (dotted op) om = None \/ (ci_eval x = false /\ resolve_at [1] (dotted ip) im = None)) ->
      exists e, run_C14 x = ([], Err e))
     /\ (forall tree, fst (run_C14 x) = [EvWrite FOutput tree] ->
